@@ -308,6 +308,10 @@ func checkC15(ctx *Ctx) *Result {
 	}
 	reportMismatches(r, "R15.3", val, vf, func(m mismatch) bool { return true }, "per-element behaviour differs from the documented, order-free table")
 	sortedSetAdd(ctx, r, "R15.4")
+	// order independence of the origin list rests on the tree: only its
+	// structural necessary conditions are decided (pairing of parallel slices,
+	// encoding agreement, insertion and lookup shape)
+	treeRules(ctx, r)
 	return r
 }
 
